@@ -170,6 +170,33 @@ fn unicode_name() -> impl Strategy<Value = String> {
     .prop_map(|v| v.concat())
 }
 
+/// names with control characters, separators and invisible characters (the Builder and the binary
+/// format take any string; for the text loaders `expected_facts` replaces what a line-based
+/// tab-separated file cannot carry)
+fn control_name() -> impl Strategy<Value = String> {
+    vec(
+        prop_oneof![
+            4 => "[a-zA-Z ]{1,3}",
+            1 => Just("\t".to_string()),
+            1 => Just("\n".to_string()),
+            1 => Just("\r\n".to_string()),
+            1 => Just("\0".to_string()),
+            1 => Just("\u{1b}".to_string()),
+            1 => Just("\u{7f}".to_string()),
+            1 => Just("\u{85}".to_string()),
+            1 => Just("\u{2028}".to_string()),
+            1 => Just("\u{feff}".to_string()),
+            1 => Just("\n\n".to_string()),
+            1 => Just("\\".to_string()),
+            1 => Just("\"".to_string()),
+            1 => Just("!".to_string()),
+            1 => Just("[Term]".to_string()),
+        ],
+        1..7,
+    )
+    .prop_map(|v| v.concat())
+}
+
 /// names with a byte length at or around the 255 byte limit
 fn long_name() -> impl Strategy<Value = String> {
     (
@@ -194,9 +221,9 @@ fn long_name() -> impl Strategy<Value = String> {
 
 pub fn name_strategy(mode: NameMode) -> BoxedStrategy<String> {
     match mode {
-        NameMode::Plain => prop_oneof![5 => ascii_name(), 2 => unicode_name()].boxed(),
-        NameMode::Rich => prop_oneof![5 => ascii_name(), 3 => unicode_name(), 3 => long_name()].boxed(),
-        NameMode::Capped => prop_oneof![5 => ascii_name(), 3 => unicode_name(), 3 => long_name()]
+        NameMode::Plain => prop_oneof![10 => ascii_name(), 4 => unicode_name(), 1 => control_name()].boxed(),
+        NameMode::Rich => prop_oneof![10 => ascii_name(), 6 => unicode_name(), 6 => long_name(), 1 => control_name()].boxed(),
+        NameMode::Capped => prop_oneof![10 => ascii_name(), 6 => unicode_name(), 6 => long_name(), 1 => control_name()]
             .prop_map(|s| char_prefix(&s, 255).to_string())
             .boxed(),
     }
@@ -258,7 +285,7 @@ pub fn raw_facts(cfg: &GenCfg) -> impl Strategy<Value = RawFacts> {
             0u8..8,
             0u8..4,
             vec(node_strategy(cfg), cfg.min_terms..=cfg.max_terms),
-            (any::<u16>(), 0u8..13, 0u8..32),
+            (any::<u16>(), prop_oneof![6 => 0u8..13, 1 => any::<u8>()], prop_oneof![6 => 0u8..32, 1 => any::<u8>()]),
         ),
         (
             nrec().prop_flat_map({
@@ -559,7 +586,8 @@ pub fn realise(raw: &RawFacts, cfg: &GenCfg) -> Facts {
         }
     }
     let mut f = Facts {
-        version: (raw.version.0 % 10000, raw.version.1, raw.version.2),
+        // calendar-like versions keep a four-digit year; the Builder and the binary format take any (u16, u8, u8)
+        version: if raw.version.1 > 12 || raw.version.2 > 31 { raw.version } else { (raw.version.0 % 10000, raw.version.1, raw.version.2) },
         terms,
         edges,
         recs,
